@@ -948,7 +948,11 @@ def delete_unused_functions_and_classes(
             funcdefs.append(node)
 
     for node in core.walk(root, ast.ClassDef):
-        if node.name not in preserve:
+        # A class is kept with its preserved methods
+        if node.name not in preserve and not any(
+            funcdef.name in preserve or f"{node.name}.{funcdef.name}" in preserve
+            for funcdef in core.filter_nodes(node.body, (ast.FunctionDef, ast.AsyncFunctionDef))
+        ):
             classdefs.append(node)
 
     for node in core.walk(root, ast.Name(ctx=ast.Load)):
